@@ -47,6 +47,7 @@ def model(rep, t):
     if t == 'thorough':
         grid += [(4, 3), (5, 2), (2, 4)]
     total = 0
+    jobs = []
     for R, N in grid:
         for sel, label in patterns(R).items():
             if R >= 4 and label not in ('all', 'odd', 'only-last (first selected row late)'):
@@ -55,9 +56,20 @@ def model(rep, t):
                                 constants={'R': R, 'N': N, 'Sel': tla_set(sel), 'Fail': tla_set(sel[:1]) if (R + N) % 3 == 0 else '{}'},
                                 invariants=['ExactlyOnce', 'AtMostOnce', 'AppliedBeforeDelivered', 'Quiescent'],
                                 properties=['NoRowAfterEnd', 'Termination'])
-            res = tlc.run_tlc('Parallelize', cfg, allow_violation=False, timeout=7200)
-            total += res.distinct
-            rep.add_tlc(res, 'Parallelize R=%d N=%d Sel=%s (%s): safety + Termination under WF' % (R, N, tla_set(sel), label))
+            jobs.append((R, N, sel, label, cfg))
+    from concurrent.futures import ThreadPoolExecutor
+    big = [j for j in jobs if j[0] * j[1] >= 8]
+    small = [j for j in jobs if j not in big]
+
+    def one(j, workers):
+        return tlc.run_tlc('Parallelize', j[4], workers=workers, allow_violation=False, timeout=7200)
+    with ThreadPoolExecutor(8) as ex:
+        results = list(ex.map(lambda j: one(j, 2), small))
+    results += [one(j, None) for j in big]
+    for j, res in zip(small + big, results):
+        R, N, sel, label, _ = j
+        total += res.distinct
+        rep.add_tlc(res, 'Parallelize R=%d N=%d Sel=%s (%s): safety + Termination under WF' % (R, N, tla_set(sel), label))
     return total
 
 
@@ -151,8 +163,11 @@ def run():
     groups = {}
     for it, tr in zip(items, traces):
         groups.setdefault((it['R'], it['N'], tuple(it['sel']), tuple(it['fail_ids'])), []).append((it, tr))
-    for (R, N, sel, fail), lst in sorted(groups.items()):
-        verd = validate(rep, R, N, list(sel), [x[1] for x in lst], fail)
+    from concurrent.futures import ThreadPoolExecutor
+    glist = sorted(groups.items())
+    with ThreadPoolExecutor(8) as ex:
+        allverd = list(ex.map(lambda g: validate(rep, g[0][0], g[0][1], list(g[0][2]), [x[1] for x in g[1]], g[0][3]), glist))
+    for ((R, N, sel, fail), lst), verd in zip(glist, allverd):
         for (it, tr), v in zip(lst, verd):
             rep.count(1, traces=1)
             rep.mark_distinct(tr['ev'])
